@@ -286,13 +286,16 @@ def walks(tier):
                 subsets += list(itertools.combinations(cand, k))
             if tier == "quick" and n >= 4:
                 subsets = subsets[::2] + [tuple(cand)]
-            for D in subsets:
-                out.append(json.dumps({"do": "walk", "pkt": pkt, "sec": sec, "incl": incl, "twice": True, "del_q": False,
+            for k, D in enumerate(subsets):
+                # every other walk starts from a pointer-free object whose question cache is filled
+                prelude = ["recompute", "read_question"] if k % 2 else []
+                out.append(json.dumps({"do": "walk", "pkt": pkt, "sec": sec, "incl": incl, "twice": True, "del_q": False, "prelude": prelude,
                                        "del": [ids[i] for i in D], "max_yields": (n + 2) * (n + 2)}, separators=(",", ":")))
     # the question section: delete it or not; compressed owners point at it
     for b in base_packets()[:6]:
         for dq in (False, True):
-            out.append(json.dumps({"do": "walk", "pkt": b, "sec": "Q", "incl": False, "twice": True, "del_q": dq, "del": [], "max_yields": 8}, separators=(",", ":")))
+            for prelude in ([], ["recompute", "read_question"], ["read_question"]):
+                out.append(json.dumps({"do": "walk", "pkt": b, "sec": "Q", "incl": False, "twice": True, "del_q": dq, "del": [], "prelude": prelude, "max_yields": 8}, separators=(",", ":")))
     return out
 
 
